@@ -286,6 +286,7 @@ func (ex *Exec) symFloat(name string, bits int) Flt {
 		fresh := !ex.nondetSeen[name]
 		t := ex.nondetVar(name, s)
 		if fresh {
+			ex.TS.Finite[t] = true
 			ex.assume(ex.TS.Not(ex.TS.Op(SBool, "fp.isNaN", t)))
 			ex.assume(ex.TS.Not(ex.TS.Op(SBool, "fp.isInfinite", t)))
 		}
